@@ -46,6 +46,7 @@ type Obs struct {
 	Done []int              `json:"done"` // completions per call
 	Res  []AnsRec           `json:"res"`  // result of a batched call
 	Out  [][][]int          `json:"out"`  // items delivered by a list / scan call
+	Sent [][]int            `json:"sent"` // sent[c-1][s-1]: how often the request of call c reached shard s
 }
 
 type Step struct {
@@ -56,6 +57,7 @@ type Step struct {
 	T   Tmpl   `json:"t"`
 	Key []int  `json:"key"`
 	How string `json:"how"`
+	N   int    `json:"n"`
 	Pre *Obs   `json:"pre,omitempty"`
 }
 
@@ -79,6 +81,7 @@ type TLine struct {
 	Res AnsRec `json:"res"`
 	Key []int  `json:"key"`
 	How string `json:"how"`
+	N   int    `json:"n"`
 	Cfg Cfg    `json:"cfg"`
 }
 
